@@ -691,6 +691,7 @@ theorem step_link (w : World) (op : Op) (hreg : ∀ s ∈ w.registry, s < w.sock
       dsimp only
       repeat (first | exact l | exact lk_wsFrame _ _ l | split)
     | drop c => exact lk_wsDrop _ l
+    | closeFrame c code => exact lk_wsDrop _ (lk_setConn _ _ l)
     | send sid m c cb pre => exact lk_appSend _ _ _ _ _ l
     | close sid d => exact lk_appClose _ _ l
     | shutdown => exact lk_shutdown l
